@@ -72,12 +72,12 @@ def partial_pred(c, root, cls, stage, seen):
         sec_sub_seen = z3.Or(z3.And(child("Section"), z3.Select(seen, VRef(n))),
                              z3.And(bi_in, z3.Select(seen, k["sec_of_bi"])),
                              z3.And(blk_in, z3.Select(seen, k["sec_of_block"])))
-        if stage == 0:
-            body = z3.Or(is_self, z3.And(child("ProxyBlock"), z3.Select(seen, VRef(n))))
-        elif stage == 1:
-            body = z3.Or(is_self, child("ProxyBlock"), sec_sub_seen)
-        else:
-            body = z3.Or(is_self, child("ProxyBlock"), sec_sub_all, z3.And(child("Symbol"), z3.Select(seen, VRef(n))))
+        # stage = (collection being walked, collections already walked): the three loops may come in any order
+        cur, done = stage
+        whole = {"proxies": child("ProxyBlock"), "sections": sec_sub_all, "symbols": child("Symbol")}
+        part = {"proxies": z3.And(child("ProxyBlock"), z3.Select(seen, VRef(n))), "sections": sec_sub_seen,
+                "symbols": z3.And(child("Symbol"), z3.Select(seen, VRef(n)))}
+        body = z3.Or([is_self] + [whole[d] for d in done] + [part[cur]])
         return z3.And(K.is_node(c, n), body)
     return pred
 
@@ -111,7 +111,19 @@ def loop_inv(cls, op, stage):
         root = L.a.self.t
         d0, m0 = tbl(L.a.cache)
         d1, m1 = tbl(L.env["cache"])
-        pred = partial_pred(L.c0, root, cls, stage, L.seen)
+        st_ = stage
+        if cls == "Module":
+            # which child collection this loop walks and which ones were walked before it is read off the source
+            # (for x in self.proxies / self.sections / self.symbols), not off the position of the loop
+            def coll(src):
+                m = src.rsplit(".", 1)
+                if len(m) != 2 or m[0] != "self" or m[1] not in ("proxies", "sections", "symbols"):
+                    raise Unsupported("uuid-cache loop over %s: not one of the module's child collections" % src)
+                return m[1]
+            if L.iter_src is None:
+                raise Unsupported("uuid-cache loop: iterated expression unknown")
+            st_ = (coll(L.iter_src), tuple(coll(d) for d in L.done))
+        pred = partial_pred(L.c0, root, cls, st_, L.seen)
         f = _added_pred if op == "add" else _removed_pred
         return f(L.c0, pred, d0, m0, d1, m1)
     return inv
